@@ -241,11 +241,7 @@ def oracle(case, impl_out, reply):
         # what was reported before the parse stopped must still be right (the spec reads on past the missing file)
         if fatal is None or fatal['kind'] != 'open':
             fails.append('missing_file: an \\@input file that cannot be opened must end in a pybtex I/O error, got %r' % (fatal,))
-        n = len(impl_out['errors'])
-        got = [(r['kind'], r.get('msg'), r['file'], r['lineno'], _ctx_text(r['ctx'])) for r in impl_out['errors'] if not _internal(r)]
-        want = [(w['kind'], w['msg'], w['file'], w['lineno'], w['text'] or None) for w in spec['errors'][:n]]
-        if len(got) == n and got != want:
-            fails.append('located: before the missing file was hit, reported %r, expected %r' % (got, want))
+        fails += _check_reports(case, impl_out['errors'], spec['errors'], spec['cites'], partial=True)
         return fails
     # fatal errors
     if spec['fatal'] is not None:
@@ -261,21 +257,75 @@ def oracle(case, impl_out, reply):
             fails.append('style_data: got style=%r data=%r, first \\bibstyle / \\bibdata are %r / %r' % (
                 impl_out['style'], impl_out['data'], spec['style'], spec['data']))
     # the reports: which, and where
-    got = [(r['kind'], r.get('msg')) for r in impl_out['errors']]
-    want = [(r['kind'], r['msg']) for r in spec['errors']]
-    if got != want:
-        kinds = {k for k, _ in set(got) ^ set(want)} or {k for k, _ in got + want}
-        clause = 'case_mismatch_reported' if kinds == {'case_mismatch'} else 'duplicates_reported'
-        fails.append('%s: reported %r, expected %r' % (clause, got, want))
+    fails += _check_reports(case, impl_out['errors'], spec['errors'], spec['cites'])
+    return fails
+
+
+def _loc(r):
+    return (r['file'], r['lineno'], _ctx_text(r['ctx']))
+
+
+def _check_reports(case, errors, spec_errors, cites, partial=False):
+    """Duplicates: exactly the second and later \\bibstyle / \\bibdata lines, each at its own (file, line, text).
+    Case mismatches, as a relation (the property does not say against WHICH earlier spelling a key is compared):
+    every report is genuine -- it names two different spellings of one key, stands at a \\citation line that cites
+    the first of them, and the second was cited before -- and for every key the first citation in a second
+    spelling is reported where it stands.  `partial`: the parse was cut short by a file that could not be opened
+    (the spec reads on past it): only what was reported is checked, not what is missing."""
+    fails = []
+    errors = [r for r in errors if not _internal(r)]
+    odd = [r['kind'] for r in errors if r['kind'] not in ('another_bibstyle', 'another_bibdata', 'case_mismatch')]
+    if odd:
+        return ['duplicates_reported: unexpected reports %r' % (odd,)]
+    got = [r for r in errors if r['kind'] != 'case_mismatch']
+    want = [w for w in spec_errors if w['kind'] != 'case_mismatch']
+    if partial:
+        # the parse stopped at a file that could not be opened: what was reported until then
+        want = want[:len(got)]
+    if [r['kind'] for r in got] != [w['kind'] for w in want]:
+        fails.append('duplicates_reported: reported %r, the second and later \\bibstyle / \\bibdata lines are %r' % (
+            [(r['kind'],) + _loc(r) for r in got], [(w['kind'], w['file'], w['lineno'], w['text']) for w in want]))
     else:
-        for r, w in zip(impl_out['errors'], spec['errors']):
-            if _internal(r):
-                continue  # already reported above
-            here = (r['file'], r['lineno'], _ctx_text(r['ctx']))
+        for r, w in zip(got, want):
             there = (w['file'], w['lineno'], w['text'] or None)
-            if here != there:
+            if _loc(r) != there:
                 clause = 'context_after_input' if _after_input(case, w['file'], w['lineno']) else 'located'
-                fails.append('%s: the %s problem occurs at (file, line, text) = %r but the error shows %r' % (clause, w['kind'], there, here))
+                fails.append('%s: the %s problem occurs at (file, line, text) = %r but the error shows %r' % (clause, w['kind'], there, _loc(r)))
+                break
+    # case mismatches
+    occ = [(f, n, t, k) for f, n, t, ks in cites for k in ks]      # citations in reading order
+    mism = [r for r in errors if r['kind'] == 'case_mismatch']
+    for r in mism:
+        parts = (r.get('msg') or '')[len(_MISMATCH):].split(' and ')
+        if len(parts) != 2:
+            # cannot be taken apart (a key containing " and "): fall back to the exact list
+            if [(x['msg'],) + _loc(x) for x in mism] != [(w['msg'], w['file'], w['lineno'], w['text'] or None) for w in spec_errors if w['kind'] == 'case_mismatch']:
+                fails.append('case_mismatch_reported: reported %r' % ([(x['msg'],) + _loc(x) for x in mism],))
+            return fails
+        k, k2 = parts
+        ok = False
+        for i, (f, n, t, key) in enumerate(occ):
+            if key == k and (f, n, t or None) == _loc(r) and any(p[3] == k2 for p in occ[:i]):
+                ok = True
+                break
+        if not (k != k2 and k.lower() == k2.lower() and ok):
+            here = [(f, n, t) for f, n, t, key in occ if key == k]
+            clause = 'context_after_input' if any(_after_input(case, f, n) for f, n, _t in here) else ('located' if here else 'case_mismatch_reported')
+            fails.append('%s: report %r shown at %r: not a citation of %r there after an earlier citation of %r (it is cited at %r)' % (
+                clause, r.get('msg'), _loc(r), k, k2, here))
+            return fails
+    first = {}
+    done = set()
+    for f, n, t, key in ([] if partial else occ):
+        kl = key.lower()
+        if kl not in first:
+            first[kl] = key
+        elif key != first[kl] and kl not in done:
+            done.add(kl)
+            if not any(_loc(r) == (f, n, t or None) and (r.get('msg') or '').startswith(_MISMATCH + key + ' and ') for r in mism):
+                clause = 'context_after_input' if _after_input(case, f, n) else 'case_mismatch_reported'
+                fails.append('%s: %r is cited at %r after having been cited as %r; no such report there (reports: %r)' % (
+                    clause, key, (f, n, t), first[kl], [(r.get('msg'),) + _loc(r) for r in mism]))
                 break
     return fails
 
